@@ -279,71 +279,55 @@ def check_path(ctx):
     R.check("C09.6", "EXC", fi, "CKD refusals (hardened-from-public, invalid child) propagate out of derive_from_path", not wrapped,
             "the child derivation call is inside try/except %s: a refusal of CKDpub/CKDpriv is swallowed" % (wrapped[0][1] if wrapped else ""),
             line=wrapped[0][0].lineno if wrapped else None, example="M/0' from an extended public key")
-    path, mk = P("path", tm.STR), P("master_extended_key", tm.BYTES)
+    # derivation on concrete paths: the path grammar is finite per depth, so the function is evaluated on concrete path strings
+    # (the starting key stays symbolic); the parsing code may be arranged in any way
+    mk = P("master_extended_key", tm.BYTES)
     des0 = tm.app(B32 + "deserialized_extended_key", [mk, False], ty=tm.ANY)
     ver0 = T("proj", (des0, 0))
     pub_t = tm.cmp("in", ver0, (VPUB_M, VPUB_T))
     prv_t = tm.cmp("in", ver0, (VPRV_M, VPRV_T))
-    for public in (False, True):
-        mode = "M/ (public)" if public else "m/ (private)"
-        ev.assumptions = {tm.cmp("eq", path, "m"): False, tm.cmp("eq", path, "M"): False,
-                          T("startswith", (path, "m/"), tm.BOOL): not public, T("startswith", (path, "M/"), tm.BOOL): public,
-                          pub_t: public, prv_t: not public}
-        s = ev.run(fi)
-        loops = [lp for lp in s.loops if lp.func == fi.qualname and any(
-            isinstance(v, T) and tm.contains(v, lambda t: isinstance(t, T) and t.op == "app" and t.args[0] == B32 + "serialized_extended_key") for v in lp.body.values())]
-        R.check("C09.6", "THREAD", fi, mode + ": one derivation loop", len(loops) == 1, "found %d derivation loops" % len(loops))
-        if len(loops) != 1:
-            continue
-        lp = loops[0]
-        # path elements
-        it = lp.iter
-        e0 = tm.bv(0)
-        tree = tm.slc(T("m:split", (path, "/"), tm.LIST), 1, None)
-        want_it = tm.mapt(tm.ite(T("endswith", (e0, "'"), tm.BOOL), tm.add([H, T("toint", (tm.slc(e0, None, -1),), tm.INT)]), T("toint", (e0,), tm.INT)), tree)
-        R.check("C09.6", "TERM-EQ", fi, mode + ": path elements int(t) / int(t[:-1]) + 2^31 over path.split('/')[1:]", tm.veq(it, want_it),
-                "path element parsing: %s" % tm.first_diff(it, want_it))
-        # threading: key_tree' = key_tree @ [child_ser], parent = key_tree[-1]
-        tv = None
-        for var, val in lp.body.items():
-            acc = T("acc", (var, lp.depth), tm.LIST)
-            if isinstance(val, T) and val.op == "lcat" and len(val.args) == 2 and tm.veq(val.args[0], acc):
-                tv = (var, acc, rules.unfz(val.args[1]))
-        R.check("C09.6", "THREAD", fi, mode + ": each step appends its result to the chain of keys", tv is not None and len(tv[2]) == 1,
-                "no list threads the derived keys")
-        if tv is None or len(tv[2]) != 1:
-            continue
-        var, acc, (child_ser,) = tv
-        R.check("C09.6", "THREAD", fi, mode + ": chain starts with the given extended key",
-                tm.veq(tm.freeze(lp.init.get(var)), tm.freeze([mk])), "derivation starts from %s" % tm.show(lp.init.get(var))[:100])
-        parent = tm.idx(acc, -1)
-        pd = tm.app(B32 + "deserialized_extended_key", [parent, False], ty=tm.ANY)
-        p_depth, p_chain, p_key = T("proj", (pd, 1)), T("proj", (pd, 4)), T("proj", (pd, 5))
-        ckd = B32 + ("CKDpub" if public else "CKDpriv")
-        child = tm.app(ckd, [p_key, p_chain, tm.bv(lp.depth)], ty=tm.TUPLE)
-        pubk = p_key if public else tm.app(B32 + "point", [p_key], ty=tm.TUPLE)
-        fpr = tm.slc(tm.app("bits.utils.pubkey_hash", [tm.app(B32 + "ser_p", [pubk], ty=tm.BYTES)], ty=tm.BYTES), None, 4)
-        testnet = tm.cmp("in", ver0, (VPRV_T, VPUB_T))
-        want = tm.app(B32 + "serialized_extended_key", [tm.idx(child, 0), tm.idx(child, 1), be(tm.add([1, tm.b2i(p_depth, "big")]), 1), fpr,
-                                                        be(tm.bv(lp.depth), 4), testnet], ty=tm.BYTES)
-        R.check("C09.6", "TERM-EQ", fi, mode + ": step = serialize(CKD(parent key, parent chain, i), depth+1, HASH160(serP(parent pub))[:4], ser32(i), network)",
-                tm.veq(child_ser, want), "derivation step: %s" % tm.first_diff(child_ser, want), expected=tm.show(want)[:600], found=tm.show(child_ser)[:600],
-                example="deriving from an extended key that is itself at depth > 0, or a hardened step")
-        rets = s.returns()
-        R.check("C09.6", "THREAD", fi, mode + ": result is the last key of the chain",
-                bool(rets) and isinstance(rets[-1].value, T) and rets[-1].value.op == "idx" and rets[-1].value.args[1] == -1,
-                "derive_from_path returns %s" % (tm.show(rets[-1].value)[:120] if rets else None))
-    # version / prefix consistency: m/ requires a private version, M/ a public one
-    ev.assumptions = {tm.cmp("eq", path, "m"): False, tm.cmp("eq", path, "M"): False, T("startswith", (path, "m/"), tm.BOOL): True}
-    s = ev.run(fi)
-    okm = any(e.exc == "ValueError" and any(tm.veq(g, tm.lnot(prv_t)) for g in e.guard) for e in s.raises())
-    R.check("C09.6", "DOM", fi, "m/ requires a private extended key", okm, "m/ path accepted with a public extended key")
-    ev.assumptions = {tm.cmp("eq", path, "m"): False, tm.cmp("eq", path, "M"): False, T("startswith", (path, "m/"), tm.BOOL): False,
-                      T("startswith", (path, "M/"), tm.BOOL): True}
-    s = ev.run(fi)
-    okM = any(e.exc == "ValueError" and any(tm.veq(g, tm.lnot(pub_t)) for g in e.guard) for e in s.raises())
-    R.check("C09.6", "DOM", fi, "M/ requires a public extended key", okM, "M/ path accepted with a private extended key")
+    testnet = tm.cmp("in", ver0, (VPRV_T, VPUB_T))
+
+    def expected(steps, public):
+        cur = mk
+        for i in steps:
+            pd = tm.app(B32 + "deserialized_extended_key", [cur, False], ty=tm.ANY)
+            p_depth, p_chain, p_key = T("proj", (pd, 1)), T("proj", (pd, 4)), T("proj", (pd, 5))
+            child = tm.app(B32 + ("CKDpub" if public else "CKDpriv"), [p_key, p_chain, i], ty=tm.TUPLE)
+            pubk = p_key if public else tm.app(B32 + "point", [p_key], ty=tm.TUPLE)
+            fpr = tm.slc(tm.app("bits.utils.pubkey_hash", [tm.app(B32 + "ser_p", [pubk], ty=tm.BYTES)], ty=tm.BYTES), None, 4)
+            cur = tm.app(B32 + "serialized_extended_key", [tm.idx(child, 0), tm.idx(child, 1), be(tm.add([1, tm.b2i(p_depth, "big")]), 1), fpr, be(i, 4), testnet], ty=tm.BYTES)
+        return cur
+
+    HH = 2 ** 31
+    good = [("m", []), ("m/0", [0]), ("m/0'", [HH]), ("m/1/2'/3", [1, HH + 2, 3]), ("m/44'/0'/0'/0/5", [HH + 44, HH, HH, 0, 5]), ("m/2147483647", [HH - 1]), ("m/2147483647'", [2 * HH - 1]),
+            ("M", []), ("M/0", [0]), ("M/7/8", [7, 8]), ("M/2147483647/1", [HH - 1, 1]), ("M/0'", [HH]), ("M/3/2147483648", [3, HH])]
+    if ctx.thorough:
+        good += [("m/%d'/%d" % (a_, b_), [HH + a_, b_]) for a_ in (0, 1, 49, 84) for b_ in (0, 1, 1000)] + [("M/" + "/".join(str(k) for k in range(d_)), list(range(d_))) for d_ in range(1, 9)]
+    badp = []
+    for path_s, steps in good:
+        public = path_s.startswith("M")
+        ev.assumptions = {pub_t: public, tm.lnot(pub_t): not public, prv_t: not public, tm.lnot(prv_t): public}
+        k, v = rules.decided_outcome(ev.run(fi, {"path": path_s, "master_extended_key": mk}, use_defaults=True))
+        want = expected(steps, public)
+        if not (k == "return" and tm.veq(v, want)):
+            badp.append((path_s, k, tm.first_diff(v, want)[:200] if k == "return" else tm.show(v)[:100]))
     ev.assumptions = {}
+    R.check("C09.6", "TERM-EQ", fi, "for %d concrete paths (m / M, hardened and normal steps, depth 0..5): each step = serialize(CKD(parent key, parent chain, i), depth+1, "
+            "HASH160(serP(parent pub))[:4], ser32(i), network), chained from the given key" % len(good), not badp,
+            "derive_from_path(%r) is %s %s" % (badp[0] if badp else ("", "", "")), example=("path %s" % badp[0][0]) if badp else None)
+    R.floor("C09.6", len(good), 12, "concrete_paths")
+    # malformed paths and mismatched key kinds are refused
+    refused = []
+    for path_s, public in (("m/0", True), ("m/0'", True), ("M/0", False), ("M/1/2", False), ("x/0", False), ("", False), ("m/a", False), ("m/1/-", False), ("m//1", False), ("n", True)):
+        ev.assumptions = {pub_t: public, tm.lnot(pub_t): not public, prv_t: not public, tm.lnot(prv_t): public}
+        k, v = rules.decided_outcome(ev.run(fi, {"path": path_s, "master_extended_key": mk}, use_defaults=True))
+        if k != "raise":
+            refused.append((path_s, "public" if public else "private", k, tm.show(v)[:80]))
+    ev.assumptions = {}
+    R.check("C09.6", "DOM", fi, "m/ needs a private key, M/ a public key; malformed paths are refused", not refused,
+            "derive_from_path(%r) with a %s extended key is %s %s instead of an error" % (refused[0] if refused else ("", "", "", "")),
+            example=("path %r with a %s key" % refused[0][:2]) if refused else None)
     # get_xpub
     fx = ctx.fn("bits.wallet.hd.get_xpub")
     sx = ev.run(fx)
